@@ -2,14 +2,18 @@
 
   1. TLC explores the per-call mechanism machine of Term.tla over EVERY cell of the table
      (entry point x receiver kind x severity x logger level x noInterrupt x interruptAlways x
-     process mode x format x other flags x input class x destination class x message size),
-     checks that the mechanism implements the statement (invariants + action properties; among
-     them: termination does not depend on where the record goes or on how long the message is)
-     and exports the table with the outcome the statement demands for each cell.
+     way the process was started (no sign / both signs / only one of the two signs of a go-test binary)
+     x format x other flags x input class x destination class x message size x call site (top level,
+     nested in a destination's Write of a record of the same / another logger, nested in a value's
+     String / MarshalText / LogValue)), checks that the mechanism implements the statement (invariants
+     + action properties; among them: termination does not depend on where the record goes, on how
+     long the message is, on where the call comes from or on a single start-up sign) and exports
+     the table with the outcome the statement demands for each cell.
   2. Deliberately wrong mechanisms (Mut) must be rejected by TLC - the invariants are not vacuous.
-  3. The Go worker executes every cell on the library in child processes of the cell's process
-     mode (batches; a cell expected to exit is the last of its batch; write-ahead markers and
-     write-through recorders) and records what it observed.
+  3. The Go worker executes every cell on the library in child processes started the cell's way
+     (batches; a cell expected to exit is the last of its batch; write-ahead markers and
+     write-through recorders; a child that is stuck inside a call is killed after a time limit
+     and the call recorded as "hang") and records what it observed.
   4. TLC validates the recording against the statement predicates (TermTrace.tla); the "record
      written first" clause is evaluated where the cell has a recording destination for the severity.
 Expected outcomes exist only in the specification; Python uses them for scheduling batches.
@@ -18,6 +22,7 @@ import concurrent.futures
 import json
 import os
 import random
+import subprocess
 
 from vlib import Undecided, write_ndjson, read_ndjson, NCPU
 from tlagen import Fn, gen_mc
@@ -27,7 +32,7 @@ CUSTOMS = {13: 2, 14: 1}          # registered custom levels: 13 treated as Erro
 CUSTOM_TITLES = {13: "swell", 14: "doom"}
 SEV = {0: "Panic", 1: "Fatal", 2: "Error", 3: "Warn", 4: "Info", 5: "Debug", 6: "Trace", 7: "Off", 8: "Always",
        9: "OK", 10: "Success", 11: "Fail", 12: "Max", 13: "Custom13asError", 14: "Custom14asFatal"}
-INVARIANTS = "TypeOK WriteThenTerminate OnlyWhenStated FinalMatchesStatement NotAdmittedSilent DestinationsDoNotMatter"
+INVARIANTS = "TypeOK WriteThenTerminate OnlyWhenStated FinalMatchesStatement NotAdmittedSilent Ends DestinationsDoNotMatter"
 PROPERTIES = "TermOrder NothingAfterEnd"
 # wrong mechanisms and what must reject them
 WITNESSES = {"exitFirst": "exit before the record is printed", "status": "other exit status",
@@ -37,9 +42,17 @@ WITNESSES = {"exitFirst": "exit before the record is printed", "status": "other 
              "truncate": "a message longer than 64 KiB is clamped before it is printed and handed to panic",
              # the same two against the relational invariant alone
              "discardGate@DestinationsDoNotMatter": "outcome depends on the destination class",
-             "truncate@DestinationsDoNotMatter": "outcome depends on the message size"}
+             "truncate@DestinationsDoNotMatter": "outcome depends on the message size",
+             "waitInFlight@Ends": "a nested Fatal waits for the record in the making before it exits - for ever",
+             "waitInFlight@DestinationsDoNotMatter": "outcome depends on the call site",
+             "eitherSign@FinalMatchesStatement": "one start-up sign (name *.test or a -test.* argument) is taken for go test",
+             "eitherSign@DestinationsDoNotMatter": "outcome depends on a single start-up sign"}
 MAX_BATCH = 250
-CELL_KEYS = ["ep", "recv", "r", "L", "ni", "ia", "testing", "fmt", "base", "inp", "dst", "size"]
+# A child that is alive inside a call while its log has not grown for HANG_S seconds (of time during which the
+# driver itself was being scheduled) is killed and the call recorded as "hang" - provided the call's record is
+# in the log already (twice as long otherwise); see termRunBatch in harness/fam_term.go.
+HANG_S = 30
+CELL_KEYS = ["ep", "recv", "r", "L", "ni", "ia", "testing", "start", "fmt", "base", "inp", "dst", "size", "from"]
 
 
 BASES = ["std", "empty", "all"]
@@ -48,7 +61,29 @@ ALL_INPUTS = INPUTS + ["huge", "nilctx"]
 # destination classes (Term.tla DstCfg) and message sizes (Term.tla MsgSizes); the default is ("rec", 0)
 DSTS = ["rec", "dflt", "discN", "discE", "discBoth", "emptied", "lvlrec", "lvldisc", "lvlemptied", "mixed"]
 SIZES = [0, 65535, 65536, 65537, 102400, 307200]
-ALL_DIMS = {(f, b, x, "rec", 0) for f in FORMATS for b in BASES for x in ALL_INPUTS}
+# call sites (Term.tla Sites) and ways of starting the process (Term.tla Starts)
+SITES = ["top", "writeSame", "writeOther", "string", "marshalText", "logValue"]
+NESTED = SITES[1:]
+STARTS = ["prod", "gotest", "nameOnly", "argOnly"]
+HALF_STARTS = STARTS[2:]
+ARG_SIGN = "-test.endpoint=http://localhost:1"       # what an "argOnly" process is started with
+ALL_DIMS = {(f, b, x, "rec", 0, "top") for f in FORMATS for b in BASES for x in ALL_INPUTS}
+
+
+def nested_dims(s, thorough):
+    """The tuples whose call is nested in the production of another record (default destination; flag
+    sets with Lattrs).  quick: every site once (format, flags, input rotate with the seed); thorough:
+    every site with every format and both flag sets, and once with a message longer than 64 KiB."""
+    nb = ["std", "all"]
+    if not thorough:
+        return {(FORMATS[(k + s) % 3], nb[(k + s) % 2], INPUTS[(k + 2 * s) % 3], "rec", 0, site) for k, site in enumerate(NESTED)}
+    dims, k = set(), 0
+    for site in NESTED:
+        for f in FORMATS:
+            for b in nb:
+                dims.add((f, b, ALL_INPUTS[(k + s) % 5], "rec", 0, site)); k += 1
+        dims.add((FORMATS[(k + s) % 3], nb[k % 2], "plain", "rec", 65537, site)); k += 1
+    return dims
 
 
 def wide_dims(s, thorough):
@@ -62,21 +97,21 @@ def wide_dims(s, thorough):
     other, big = DSTS[1:], SIZES[1:]
     if not thorough:
         for d in other:
-            dims.add(rot(k) + (d, 0)); k += 1
+            dims.add(rot(k) + (d, 0, "top")); k += 1
         for z in big:
-            dims.add(rot(k) + ("rec", z)); k += 1
-        dims.add(rot(k) + (other[s % len(other)], big[s % len(big)])); k += 1
-        dims.add(rot(k) + ("discBoth", 65537)); k += 1
+            dims.add(rot(k) + ("rec", z, "top")); k += 1
+        dims.add(rot(k) + (other[s % len(other)], big[s % len(big)], "top")); k += 1
+        dims.add(rot(k) + ("discBoth", 65537, "top")); k += 1
         return dims
     for d in other:
         for j in range(3):
-            dims.add((FORMATS[j],) + rot(k)[1:] + (d, 0)); k += 1
+            dims.add((FORMATS[j],) + rot(k)[1:] + (d, 0, "top")); k += 1
     for z in big:
         for j in range(3):
-            dims.add((FORMATS[j],) + rot(k)[1:] + ("rec", z)); k += 1
+            dims.add((FORMATS[j],) + rot(k)[1:] + ("rec", z, "top")); k += 1
     for d in other:
         for z in big:
-            dims.add(rot(k) + (d, z)); k += 1
+            dims.add(rot(k) + (d, z, "top")); k += 1
     return dims
 
 
@@ -84,35 +119,47 @@ def table_consts(ctx, full=False):
     """thorough: the full product.  quick: all levels that separate the admission classes of
     Panic/Fatal plus two more (rotating with the seed); the <<format, base flags, input>> triples
     of Panic/Fatal cells reduced to a pairwise-covering Latin square (rotating with the seed), one triple
-    for the negative severities."""
+    for the negative severities.  Both tiers: the nested call sites (nested_dims) at the WideLevels;
+    the half start-up signs (HalfDims) with two (thorough: nine) default triples, the nested tuple of one
+    site (thorough: of every site) and, thorough, one triple of the negative severities."""
+    s = ctx.seed
+    latin = sorted((FORMATS[i], BASES[j], INPUTS[(i + j + s) % 3], "rec", 0, "top") for i in range(3) for j in range(3))
     if ctx.quick() and not full:
-        s = ctx.seed
         levels = {0, 1, 2, 4, 7, 8} | {[3, 5, 6][s % 3], [9, 10, 11, 12][s % 4]}
-        dims = {(FORMATS[i], BASES[j], INPUTS[(i + j + s) % 3]) for i in range(3) for j in range(3)}
-        dims |= {(FORMATS[i], BASES[(i + s) % 3], "huge") for i in range(3)}       # > 1024 attributes in one call
-        dims |= {(FORMATS[i], BASES[(i + s + 1) % 3], "nilctx") for i in range(3)}   # nil context + registered context keys
-        dims = {d + ("rec", 0) for d in dims} | wide_dims(s, False)
-        return dict(LoggerLevels=levels, Dims=dims, NegDims={(FORMATS[s % 3], "std", "plain", "rec", 0)},
-                    WideLevels={0, 1, 7, [2, 4, 8][s % 3]}, Customs=Fn(CUSTOMS))
-    neg = ALL_DIMS | {(FORMATS[k % 3], BASES[k % 3], "plain", d, z) for k, (d, z) in
+        dims = set(latin)
+        dims |= {(FORMATS[i], BASES[(i + s) % 3], "huge", "rec", 0, "top") for i in range(3)}       # > 1024 attributes in one call
+        dims |= {(FORMATS[i], BASES[(i + s + 1) % 3], "nilctx", "rec", 0, "top") for i in range(3)}   # nil context + registered context keys
+        nest = nested_dims(s, False)
+        dims |= wide_dims(s, False) | nest
+        half = {latin[s % 9], latin[(s + 4) % 9]} | {d for d in nest if d[5] == NESTED[s % len(NESTED)]}
+        neg = {(FORMATS[s % 3], "std", "plain", "rec", 0, "top"),
+               (FORMATS[(s + 1) % 3], ["std", "all"][s % 2], INPUTS[s % 3], "rec", 0, NESTED[(s + 2) % len(NESTED)])}   # other severities, nested
+        return dict(LoggerLevels=levels, Dims=dims, NegDims=neg,
+                    WideLevels={0, 1, 7, [2, 4, 8][s % 3]}, HalfDims=half, NegHalfDims=set(), Customs=Fn(CUSTOMS))
+    neg = ALL_DIMS | {(FORMATS[k % 3], BASES[k % 3], "plain", d, z, "top") for k, (d, z) in
                       enumerate([("discBoth", 0), ("emptied", 0), ("lvldisc", 0), ("rec", 65537)])}
-    return dict(LoggerLevels=set(range(13)), Dims=ALL_DIMS | wide_dims(ctx.seed, True), NegDims=neg,
-                WideLevels={0, 1, 2, 4, 7, 8}, Customs=Fn(CUSTOMS))
+    neg |= {d for d in nested_dims(s + 1, False) if d[5] in (NESTED + NESTED)[s % 5:s % 5 + 3]}     # three of the five sites
+    half = set(latin) | nested_dims(s, False)
+    return dict(LoggerLevels=set(range(13)), Dims=ALL_DIMS | wide_dims(s, True) | nested_dims(s, True) | nested_dims(s, False),
+                NegDims=neg, WideLevels={0, 1, 2, 4, 7, 8}, HalfDims=half,
+                NegHalfDims={(FORMATS[s % 3], "std", "plain", "rec", 0, "top")}, Customs=Fn(CUSTOMS))
 
 
 def replay_consts(cells):
     """constants of a table that contains exactly the dimensions of the given cells"""
-    dims = {(c["fmt"], c["base"], c["inp"], c["dst"], c["size"]) for c in cells}
+    dims = {(c["fmt"], c["base"], c["inp"], c["dst"], c["size"], c["from"]) for c in cells}
     levels = {c["L"] for c in cells}
-    return dict(LoggerLevels=levels, Dims=dims, NegDims=dims, WideLevels=levels, Customs=Fn(CUSTOMS))
+    return dict(LoggerLevels=levels, Dims=dims, NegDims=dims, WideLevels=levels, HalfDims=dims, NegHalfDims=dims, Customs=Fn(CUSTOMS))
 
 
 def witness_consts():
     return dict(LoggerLevels={0, 1, 4, 7}, WideLevels={0, 1, 4, 7},
-                Dims={("logfmt", "std", "plain", "rec", 0), ("logfmt", "std", "kv", "rec", 0),
-                      ("logfmt", "std", "plain", "discBoth", 0), ("logfmt", "std", "plain", "emptied", 0),
-                      ("logfmt", "std", "plain", "rec", 65536), ("logfmt", "std", "plain", "rec", 65537)},
-                NegDims={("logfmt", "std", "plain", "rec", 0)}, Customs=Fn(CUSTOMS))
+                Dims={("logfmt", "std", "plain", "rec", 0, "top"), ("logfmt", "std", "kv", "rec", 0, "top"),
+                      ("logfmt", "std", "plain", "discBoth", 0, "top"), ("logfmt", "std", "plain", "emptied", 0, "top"),
+                      ("logfmt", "std", "plain", "rec", 65536, "top"), ("logfmt", "std", "plain", "rec", 65537, "top"),
+                      ("logfmt", "std", "plain", "rec", 0, "writeSame"), ("logfmt", "std", "plain", "rec", 0, "string")},
+                HalfDims={("logfmt", "std", "plain", "rec", 0, "top")}, NegHalfDims=set(),
+                NegDims={("logfmt", "std", "plain", "rec", 0, "top")}, Customs=Fn(CUSTOMS))
 
 
 def mc_files(name, extends, consts, cfg_lines, plain):
@@ -189,32 +236,47 @@ def plan_batches(cells, rng):
     return batches
 
 
-def execute(ctx, batches_by_mode, seed):
-    """Run the driver once per process mode; returns the observation rows."""
-    ctx.worker()
-    par = max(2, min(8, NCPU // 2))
+def execute(ctx, batches_by_start, seed):
+    """Run the driver once per way of starting the process (it starts its children the way it was
+    started itself: same executable name, same -test.* arguments); returns the observation rows."""
+    w = ctx.worker()
+    big = max(2, min(8, NCPU // 2))
 
-    def one(mode):
-        d = ctx.sub("run-%s" % ("test" if mode else "prod"))
-        plan = dict(seed=seed, par=par, customs=[dict(v=v, title=CUSTOM_TITLES[v], treat=t) for v, t in CUSTOMS.items()],
-                    batches=batches_by_mode[mode])
+    def one(start):
+        d = ctx.sub("run-%s" % start)
+        n = sum(len(b) for b in batches_by_start[start])
+        par = big if n > 4000 else max(2, big // 2)
+        plan = dict(seed=seed, par=par, start=start, hang_s=HANG_S,
+                    customs=[dict(v=v, title=CUSTOM_TITLES[v], treat=t) for v, t in CUSTOMS.items()],
+                    batches=batches_by_start[start])
         pp, op = os.path.join(d, "plan.json"), os.path.join(d, "obs.ndjson")
         with open(pp, "w") as fh:
             json.dump(plan, fh)
-        # the go-test mode runs in a REAL, coverage-instrumented go test binary of the worker: such a
-        # process is "under go test" for every means of detection (argv, package testing, cover mode)
-        p = ctx.run_worker(["term-run", pp, op], testing=mode, timeout=3000, check=False,
-                           testbin=("cover" if mode else None))
+        if start in ("prod", "gotest"):
+            # the go-test mode runs in a REAL, coverage-instrumented go test binary of the worker: such a
+            # process is "under go test" for every means of detection (argv, package testing, cover mode)
+            p = ctx.run_worker(["term-run", pp, op], testing=(start == "gotest"), timeout=3000, check=False,
+                               testbin=("cover" if start == "gotest" else None))
+        else:
+            # one sign only: the production build under a name ending in .test without any -test.* argument /
+            # under its ordinary name with a -test.* argument
+            argv = [w + ".test", "term-run", pp, op] if start == "nameOnly" else [w, "term-run", pp, op, ARG_SIGN]
+            e = dict(os.environ)
+            e.pop("DEBUG", None)
+            try:
+                p = subprocess.run(argv, capture_output=True, text=True, timeout=3000, env=e, cwd=ctx.scratch, errors="replace")
+            except subprocess.TimeoutExpired:
+                raise Undecided("worker timeout: term-run (%s)" % start)
         if p.returncode != 0:
-            raise Undecided("term-run (testing=%s) failed rc=%s\n%s\n%s" % (mode, p.returncode, p.stdout[-2000:], p.stderr[-3000:]))
+            raise Undecided("term-run (start=%s) failed rc=%s\n%s\n%s" % (start, p.returncode, p.stdout[-2000:], p.stderr[-3000:]))
         info = json.loads(p.stdout.strip().splitlines()[-1])
-        if info["testing"] != mode:
-            raise Undecided("driver process mode is testing=%s, wanted %s" % (info["testing"], mode))
+        if info["start"] != start or info["testing"] != (start == "gotest"):
+            raise Undecided("driver process was started as %s (is.InTesting()=%s), wanted %s" % (info["start"], info["testing"], start))
         return read_ndjson(op), info
     rows, spawns = [], 0
-    modes = [m for m in (False, True) if batches_by_mode.get(m)]
-    with concurrent.futures.ThreadPoolExecutor(max_workers=2) as ex:
-        for r, info in ex.map(one, modes):
+    starts = [m for m in STARTS if batches_by_start.get(m)]
+    with concurrent.futures.ThreadPoolExecutor(max_workers=4) as ex:
+        for r, info in ex.map(one, starts):
             rows += r
             spawns += info["spawns"]
     rows.sort(key=lambda o: o["id"])
@@ -243,14 +305,28 @@ def validate(ctx, consts, rows, expect_all, name="term-trace"):
 
 
 def describe(o):
-    return ("%s%s(%s) on a %s logger at level %s, noInterrupt=%s interruptAlways=%s, %s process, %s, flags=%s, input=%s, "
-            "destinations=%s, message of %s") % (
+    return ("%s%s(%s) on a %s logger at level %s, noInterrupt=%s interruptAlways=%s, %s process%s, %s, flags=%s, input=%s, "
+            "destinations=%s, message of %s, %s") % (
         "slog." if o["recv"].startswith("pkg") else "", o["ep"], SEV.get(o["r"], o["r"]), o["recv"], SEV.get(o["L"], o["L"]),
-        o["ni"], o["ia"], "go-test" if o["testing"] else "production", o["fmt"], o["base"], o["inp"], o.get("dst", "rec"),
-        "%d bytes" % o["size"] if o.get("size") else "a few bytes")
+        o["ni"], o["ia"], "go-test" if o["testing"] else "production", START_TEXT.get(o.get("start"), ""),
+        o["fmt"], o["base"], o["inp"], o.get("dst", "rec"),
+        "%d bytes" % o["size"] if o.get("size") else "a few bytes", SITE_TEXT[o.get("from", "top")])
 
 
 CALL_KEYS = ["ep", "recv", "r", "L", "ni", "ia", "testing"]
+START_TEXT = {"nameOnly": " (executable named *.test, no -test.* argument)",
+              "argOnly": " (ordinary executable name, started with " + ARG_SIGN + ")"}
+SITE_TEXT = {"top": "called at top level",
+             "writeSame": "called from inside a destination's Write of another record of the same logger",
+             "writeOther": "called from inside a destination's Write of a record of another logger",
+             "string": "called from the String method of a value of another record being formatted",
+             "marshalText": "called from the MarshalText/MarshalJSON method of a value of another record being formatted",
+             "logValue": "called from the LogValue method of a value of another record (log/slog handler)"}
+
+
+def is_default(o):
+    return (o.get("dst", "rec") == "rec" and not o.get("size") and o.get("from", "top") == "top"
+            and o.get("start", "prod") in ("prod", "gotest"))
 
 
 def size_class(z):
@@ -260,12 +336,23 @@ def size_class(z):
 def report(ctx, verdict, rows, seed, prefixes=None, recorded_key=None):
     by_id = {o["id"]: o for o in rows}
     bad_ids = {b["id"] for b in verdict["bad"]}
-    # naming only: a failing cell with another destination class / a long message is filed under that
-    # class when the same call with the default dimensions (recording writers, short message) passed
-    default_ok, default_bad = set(), set()
+    # naming only: a failing cell with another destination class / a long message / a nested call site / a
+    # single start-up sign is filed under that class when the same call with the default dimensions
+    # (recording writers, short message, top level, process started with no sign or both) passed
+    # (call site and start-up sign: each is named unless the same call with only THAT dimension at its default - top
+    # level / started with no sign or both - is in the table and failed as well)
+    default_ok, default_bad, twin_bad = set(), set(), set()
+
+    def twin(o, **kw):
+        t = dict(dst=o.get("dst", "rec"), size=o.get("size", 0), start=o.get("start", "prod"))
+        t["from"] = o.get("from", "top")
+        t.update(kw)
+        return tuple(o[k] for k in CALL_KEYS) + (t["dst"], t["size"], t["from"], t["start"])
     for o in rows:
-        if o.get("dst", "rec") == "rec" and not o.get("size"):
+        if is_default(o):
             (default_bad if o["id"] in bad_ids else default_ok).add(tuple(o[k] for k in CALL_KEYS))
+        if o["id"] in bad_ids:
+            twin_bad.add(twin(o))
     split = {tuple(k) for k in verdict.get("split", [])}
     items = []
     for b in sorted(verdict["bad"], key=lambda b: b["id"]):
@@ -276,12 +363,19 @@ def report(ctx, verdict, rows, seed, prefixes=None, recorded_key=None):
         except Exception:
             exp_out = "?"
         key = "%s:%s:%s:%s->%s" % (o["ep"], "pkg" if o["recv"].startswith("pkg") else "method", "+".join(b["why"]), exp_out, o["out"])
+        outer_only = b["why"] == ["OuterTerminates"]
+        if outer_only:      # the nested call was fine, the outer call (another severity) panicked / exited
+            key = "outer-%s:OuterTerminates:ret->%s:from=%s" % ("Print" if o["from"] == "writeSame" else "Info", o.get("oout"), o["from"])
         call = tuple(o[k] for k in CALL_KEYS)
-        if (o.get("dst", "rec") != "rec" or o.get("size")) and call in default_ok and call not in default_bad:
+        if not outer_only and not is_default(o) and call in default_ok and call not in default_bad:
             if o.get("dst", "rec") != "rec":
                 key += ":dst=" + o["dst"]
             if o.get("size"):
                 key += ":msg" + size_class(o["size"])
+            if o.get("from", "top") != "top" and twin(o, **{"from": "top"}) not in twin_bad:
+                key += ":from=" + o["from"]
+            if o.get("start", "prod") not in ("prod", "gotest") and twin(o, start="gotest" if o["testing"] else "prod") not in twin_bad:
+                key += ":start=" + o["start"]
         if recorded_key and recorded_key.startswith(key):     # replay: the class the original run filed it under
             key = recorded_key
         b = dict(b, split=tuple(o[k] for k in ("r", "L", "ni", "ia", "testing")) in split)
@@ -292,7 +386,7 @@ def report(ctx, verdict, rows, seed, prefixes=None, recorded_key=None):
         (rest if it[0] in seen else first).append(it)
         seen.add(it[0])
     for key, o, b, exp in first + rest:
-        obs = {k: o.get(k) for k in ("out", "status", "pv", "nrec", "rec", "note", "pos")}
+        obs = {k: o.get(k) for k in ("out", "status", "pv", "nrec", "rec", "note", "pos", "stall_ms", "oout")}
         what = "%s: observed %s ; the specification expects %s (failed: %s)%s" % (
             describe(o), json.dumps(obs), exp, ", ".join(b["why"]),
             " ; calls of this severity/level/flags/mode did not all end the same way" if b["split"] else "")
@@ -312,7 +406,7 @@ def run(ctx, replay):
     table, stats = model_check(ctx, consts)
     build.result()
     rng = random.Random(ctx.seed * 1000003 + 12)
-    batches = {m: plan_batches([c for c in table if c["testing"] == m], rng) for m in (False, True)}
+    batches = {m: plan_batches([c for c in table if c["start"] == m], rng) for m in STARTS}
     rows, spawns = execute(ctx, batches, ctx.seed)
     if [o["id"] for o in rows] != [c["id"] for c in table]:
         raise Undecided("worker observed %d cells, the table has %d (or ids differ)" % (len(rows), len(table)))
@@ -337,27 +431,46 @@ def run(ctx, replay):
                         prefixes[c["id"]] = b[:k]
     report(ctx, verdict, rows, ctx.seed, prefixes)
 
-    ctx.traces += len(batches[False]) + len(batches[True])
+    ctx.traces += sum(len(b) for b in batches.values())
     ctx.evaluations += len(rows)
     ctx.nontrivial += len({tuple(o[k] for k in CELL_KEYS) for o in rows if o["r"] in (0, 1)})
     term = [o for o in rows if o["out"] != "ret"]
     for o in ([x for x in term if x["out"] == "exit"][:1] + [x for x in term if x["out"] == "panic"][:1] +
               [x for x in rows if x["r"] in (0, 1) and x["out"] == "ret" and x["nrec"] == 1][:1] +
               [x for x in rows if x["r"] in (0, 1) and x["nrec"] == 0][:1] +
-              [x for x in term if x["dst"] in ("discBoth", "emptied", "lvldisc")][:1] + [x for x in term if x["size"] > 65536][:1]):
+              [x for x in term if x["dst"] in ("discBoth", "emptied", "lvldisc")][:1] + [x for x in term if x["size"] > 65536][:1] +
+              [x for x in term if x["from"] in ("writeSame", "writeOther")][:1] + [x for x in term if x["from"] in ("string", "logValue")][:1] +
+              [x for x in rows if x["r"] in (0, 1) and x["start"] in HALF_STARTS and x["out"] != "ret" and not x["ia"]][:2]):
         ctx.sample({k: o[k] for k in CELL_KEYS + ["out", "status", "pv", "nrec", "rec"]})
     ctx.extra.update(table_stats=stats, process_spawns=spawns,
                      outcome_is_a_function_of_severity_level_flags_mode=not verdict.get("split"),
                      destination_classes=sorted({o["dst"] for o in rows}), message_sizes=sorted({o["size"] for o in rows}),
+                     call_sites={f: sum(1 for o in rows if o["from"] == f) for f in SITES},
+                     process_starts={m: sum(1 for o in rows if o["start"] == m) for m in STARTS},
+                     terminated_nested=sum(1 for o in term if o["from"] != "top"),
+                     terminated_with_one_sign=sum(1 for o in term if o["start"] in HALF_STARTS),
+                     hang_limit_s=HANG_S,
                      unobservable_record_cells=sum(1 for c in table if c["exp"]["rec"] == "unobservable"),
                      observed=dict(exit=sum(1 for o in rows if o["out"] == "exit"), panic=sum(1 for o in rows if o["out"] == "panic"),
-                                   ret=sum(1 for o in rows if o["out"] == "ret"),
+                                   ret=sum(1 for o in rows if o["out"] == "ret"), hang=sum(1 for o in rows if o["out"] == "hang"),
                                    complete_records=sum(1 for o in rows if o["rec"] == "complete")),
                      witness_mechanisms_rejected=wit,
                      table_constants={k: sorted(v) if isinstance(v, set) else dict(v) for k, v in consts.items()})
     ctx.assumptions += [
-        "process modes are produced by the worker's name/arguments (argv[0] ending in .test plus a -test.* argument), "
-        "which is what is.InTesting() looks at; the child reports is.InTesting() and a mismatch is an infrastructure error",
+        "process modes are produced by the worker's name/arguments: 'gotest' = a real go test binary (go test -c -cover) "
+        "started with a -test.* argument, 'prod' = the production build; 'nameOnly' = the production build under a name "
+        "ending in .test without any -test.* argument, 'argOnly' = the production build started with " + ARG_SIGN + "; "
+        "'under go test' means BOTH signs (as hedzr/is InTestingT decides), so the two half-sign starts are production "
+        "processes; the child reports is.InTesting() and the signs of its own argv, a mismatch is an infrastructure error",
+        "a nested cell's call is issued from inside the Write of a wrapper around the recording writer / from the String, "
+        "MarshalText (MarshalJSON in JSON format) or LogValue method of a value while an outer record (severity Always on the "
+        "same logger, Info on another logger) is produced; markers and recover sit around the nested call, a recovered panic "
+        "is not re-raised into the library; of the outer call only 'it neither panics nor exits' (another severity) is judged, "
+        "not what becomes of its record",
+        "'does not terminate' (out = hang): the child is alive inside the call and its log has not grown for %d s of time "
+        "during which the driver itself got scheduled (poll intervals longer than 250 ms do not count), with the call's record "
+        "already in the log (twice as long without it); after two such verdicts in one driver run the limit drops to 1.5 s; a "
+        "child that has not begun any cell by the absolute limit is an infrastructure error (undecided)" % HANG_S,
         "an exit is observed as: write-ahead marker of the cell present, end marker absent, child exit status; records are "
         "observed through write-through recorders (one write(2) per record), so 'written first' means present in the file "
         "when the process has ended / when the panic is recovered",
@@ -379,11 +492,13 @@ def do_replay(ctx, path):
         rp = json.load(fh)["replay"]
     cell, prefix, seed = rp["cell"], rp.get("prefix", []), rp.get("seed", 1)
     cells = prefix + [cell]
-    for c in cells:            # replay files written before the destination / size dimensions existed
+    for c in cells:            # replay files written before the destination / size / site / start dimensions existed
         c.setdefault("dst", "rec")
         c.setdefault("size", 0)
+        c.setdefault("from", "top")
+        c.setdefault("start", "gotest" if c["testing"] else "prod")
     consts = replay_consts(cells)
-    rows, spawns = execute(ctx, {bool(cell["testing"]): [cells], (not cell["testing"]): []}, seed)
+    rows, spawns = execute(ctx, {cell["start"]: [cells]}, seed)
     verdict = validate(ctx, consts, rows, False, name="term-replay")
     ctx.traces += 1
     ctx.evaluations += len(rows)
